@@ -143,16 +143,14 @@ fn clear_clone<const NQ: usize, const NR: usize>(bq: usize, br: usize) {
     let mask = any_set::<NQ, NR>();
     let mut f = build::<NQ, NR>(bq, br, mask);
     let e = enc::<NQ, NR>(mask);
+    let mut c = f.clone();
+    chk!("clone_equal", same_state::<NQ>(&c, &e) && c.len() == f.len() && c.bits_quotient() == bq && c.bits_remainder() == br);
+    // mutate the clone (raw slot write), the original must not move; then clear the original, the clone must not move
+    c.verif_set_slot(0, true, false, false, NR - 1);
+    chk!("orig_independent", same_state::<NQ>(&f, &e) && f.len() == mask.count_ones() as usize);
     let c = f.clone();
-    chk!("clone_equal", same_state::<NQ>(&c, &e) && c.len() == f.len());
-    let h = any_u64();
-    if any_bool() {
-        let _ = f.insert(&H64(h));
-    } else {
-        f.clear();
-    }
-    chk!("clone_independent", same_state::<NQ>(&c, &e) && c.len() == mask.count_ones() as usize);
     f.clear();
+    chk!("clone_independent", same_state::<NQ>(&c, &e) && c.len() == mask.count_ones() as usize);
     let fresh = F::with_params_and_hash(bq, br, IdBH);
     let e0 = enc::<NQ, NR>(0);
     chk!("clear_eq_fresh", same_state::<NQ>(&f, &e0) && same_state::<NQ>(&fresh, &e0));
@@ -160,6 +158,7 @@ fn clear_clone<const NQ: usize, const NR: usize>(bq: usize, br: usize) {
         chk!("clear_remainders_zero", f.verif_slot(i).3 == 0);
     }
     chk!("clear_len_zero", f.len() == 0 && f.is_empty());
+    chk!("clear_cfg_kept", f.bits_quotient() == bq && f.bits_remainder() == br);
     chk!("clear_blocks", f.verif_table_blocks() == fresh.verif_table_blocks() && f.verif_table_len() == fresh.verif_table_len());
     cov!("was_full", mask.count_ones() as usize == NQ);
 }
@@ -178,18 +177,18 @@ fn member_stays<const NQ: usize, const NR: usize>(bq: usize, br: usize) {
         chk!("inserted_is_member", f.query(&H64(hy)));
     }
     cov!("insert_failed", r.is_err());
-    cov!("insert_shifted_something", matches!(r, Ok(true)) && mask.count_ones() >= 2);
+    cov!("insert_new_next_to_member", matches!(r, Ok(true)));
 }
 
 harness!(qf_fresh_q2r2, unwind 6, { fresh_is_enc_empty::<4, 4>(2, 2) });
 harness!(qf_insert_vs_enc_q2r2, unwind 6, { insert_vs_enc::<4, 4>(2, 2) });
 harness!(qf_query_vs_enc_q2r2, unwind 6, { query_vs_enc::<4, 4>(2, 2) });
-harness!(qf_clear_clone_q2r2, unwind 6, { clear_clone::<4, 4>(2, 2) });
+harness!(qf_clear_clone_q2r2, unwind 35, { clear_clone::<4, 4>(2, 2) });
 harness!(qf_member_stays_q2r2, unwind 6, { member_stays::<4, 4>(2, 2) });
 harness!(qf_fresh_q1r2, unwind 6, { fresh_is_enc_empty::<2, 4>(1, 2) });
 harness!(qf_insert_vs_enc_q1r2, unwind 6, { insert_vs_enc::<2, 4>(1, 2) });
 harness!(qf_query_vs_enc_q1r2, unwind 6, { query_vs_enc::<2, 4>(1, 2) });
-harness!(qf_clear_clone_q1r2, unwind 6, { clear_clone::<2, 4>(1, 2) });
+harness!(qf_clear_clone_q1r2, unwind 35, { clear_clone::<2, 4>(1, 2) });
 harness!(qf_member_stays_q1r2, unwind 6, { member_stays::<2, 4>(1, 2) });
 harness!(qf_insert_vs_enc_q1r1, unwind 6, { insert_vs_enc::<2, 2>(1, 1) });
 harness!(qf_query_vs_enc_q1r1, unwind 6, { query_vs_enc::<2, 2>(1, 1) });
